@@ -26,13 +26,15 @@ ASSUMPTIONS = ["canonical rendering: single spaces, upper-case keywords, ';' glu
 KW = set("CREATE TABLE IF NOT EXISTS NULL DEFAULT PRIMARY KEY UNIQUE REFERENCES ON DELETE UPDATE CONSTRAINT CHECK ALTER ADD FOREIGN INDEX "
          "ASC DESC SEQUENCE INCREMENT BY START WITH MINVALUE NO MAXVALUE CACHE EXTERNAL COMMENT PARTITIONED STORED AS LOCATION "
          "TBLPROPERTIES ROW FORMAT FIELDS TERMINATED DROP COLUMN RENAME TO MODIFY IN ORDER NOORDER ONLY GLOBAL TEMPORARY IDENTITY "
-         "GENERATED ALWAYS AUTOINCREMENT COLLATE".split())
+         "GENERATED ALWAYS AUTOINCREMENT COLLATE CLUSTERED".split())
 BASE_T = "CREATE TABLE Sch.Tbl ( Id INT , Name INT , Amount INT ) ;"
 STM = {
     "table": ("", "CREATE TABLE IF NOT EXISTS Sch.Tbl ( Id INT NOT NULL DEFAULT 5 , Name VarChar ( 20 ) PRIMARY KEY , Amount DECIMAL ( 10 , 2 ) "
                   "UNIQUE REFERENCES Other ( Oid ) ON DELETE CASCADE , CONSTRAINT U1 UNIQUE ( Id , Name ) , CHECK ( Amount > 0 ) ) ;"),
     "table2": ("", "CREATE TABLE T2 ( a int , b varchar ( 9 ) DEFAULT nvl ( c , 'x' ) , d int CHECK ( d IN ( 1 , 'q' ) ) , e int NULL , "
                    "FOREIGN KEY ( a ) REFERENCES o ( x ) ON UPDATE RESTRICT ) ;"),
+    # key column lists with sort directions (the SQL Server spelling); CLUSTERED is a keyword of this statement too
+    "tablepk": ("", "CREATE TABLE t4 ( a int , b int , c int , PRIMARY KEY CLUSTERED ( a ASC , b DESC ) ) ;"),
     "table3": ("", "CREATE TABLE t3 ( a int DEFAULT 0 , b varchar ( 3 ) DEFAULT 'Q~r' NOT NULL , PRIMARY KEY ( a , b ) ) ;"),
     "hql": ("", "CREATE EXTERNAL TABLE IF NOT EXISTS db.t ( a INT COMMENT 'c~d' , b STRING ) PARTITIONED BY ( dt STRING ) STORED AS PARQUET "
                 "LOCATION 's3://x/y' TBLPROPERTIES ( 'k' = 'v' ) ;"),
@@ -230,6 +232,8 @@ def features(case):
         txt, canon, skip = build(case)
         if NLQ.search(txt.replace("\r\n", "\n")):
             f.append("layout:newline-then-quoted-word")
+        if case["stm"] == "tablepk" and re.search(r"\b(asc|Asc|AsC|desc|Desc|DeSc|clustered|Clustered|ClUsTeReD)\b", txt):
+            f.append("kw-case:sort-direction-or-clustered-in-key-list")
     else:
         rec = corpus()[case["idx"]]
         txt = transform(rec["ddl"], case["tf"])
